@@ -517,16 +517,15 @@ class Wikicode(StringMixIn):
         letter's case is normalized. Typical usage is
         ``if template.name.matches("stub"): ...``.
         """
-        normalize = lambda s: (s[0].upper() + s[1:]).replace("_", " ") if s else s
-        this = normalize(self.strip_code().strip())
+        normalize = lambda s: (s[0].upper() + s[1:]) if s else s
+        clean = lambda code: normalize(code.strip_code().replace("_", " ").strip())
+        this = clean(self)
 
         if isinstance(other, (str, bytes, Wikicode, Node)):
-            that = parse_anything(other).strip_code().strip()
-            return this == normalize(that)
+            return this == clean(parse_anything(other))
 
         for obj in other:
-            that = parse_anything(obj).strip_code().strip()
-            if this == normalize(that):
+            if this == clean(parse_anything(obj)):
                 return True
         return False
 
